@@ -60,6 +60,16 @@ def rule_a(R, ctx):
         ok = term_has_call(ret, "re:EncoderV%s as yrs::updates::encoder::Encoder>::to_vec$" % ver, "re:to_vec$") and \
             term_has_call(ret, "yrs::updates::encoder::EncoderV%s::new" % ver)
         R.ob("C08.a", fn, "returns-encoder-bytes", ok, "returns %s" % sshow(ret, 6))
+        single_answer(R, "C08.a", fn, r"EncoderV%s::new$" % ver,
+                      "the bytes of the encoder Update::encode_diff wrote to")
+        cfg = fn.cfg()
+        oks = [i for i, j, st in fn.stmts() if "agg" in st["rv"] and st["rv"]["agg"].get("variant") == "Ok" and str(st["rv"]["agg"].get("adt", "")).endswith("Result")]
+        R.ob("C08.a", fn, "diff-on-every-ok-path", bool(ed) and bool(oks) and all(any(cfg.dominates(c.bb, o) for c in ed) for o in oks),
+             "Update::encode_diff dominates every Ok return")
+    for name in ("merge_updates_v1", "merge_updates_v2"):
+        single_answer(R, "C08.a", Y.fn("yrs::alt::" + name), r"to_vec$|encode_v[12]$", "the encoding of Update::merge_updates(..)")
+    for name in ("encode_state_vector_from_update_v1", "encode_state_vector_from_update_v2"):
+        single_answer(R, "C08.a", Y.fn("yrs::alt::" + name), r"encode_v[12]$|to_vec$", "the encoding of Update::state_vector()")
     n = version_purity(R, "C08.a", Y)
     R.floor("C08.a", "versioned functions checked for purity", n, 20)
 
